@@ -107,6 +107,8 @@ def check(case):
     skip = oracle(eager_variant(case))["dontcare"] if case["func"] in ARG_FUNCS else None
     emap = {(None if (isinstance(k, float) and k != k) else k): i for i, k in enumerate(eg.tolist())}
     gmap = {(None if (isinstance(k, float) and k != k) else k): i for i, k in enumerate(gg.tolist())}
+    if gg.dtype.kind != eg.dtype.kind:
+        return {"case": case, "why": f"labels found at compute time have dtype {gg.dtype}, the eager call returns {eg.dtype} (not the same labels)", "sig": sig}
     if set(emap) != set(gmap):
         return {"case": case, "why": f"labels at compute time {sorted(map(str, gmap))} != eager labels {sorted(map(str, emap))}", "sig": sig}
     for k, i in emap.items():
@@ -155,6 +157,36 @@ def bounded_cases(ctx: Ctx):
                 if func in ("quantile", "nanquantile"):
                     c["finalize_kwargs"] = {"q": [0.5, [0.25, 0.75]][i % 2]}
                 cases.append(c)
+    # labels of other kinds (datetime64, timedelta64, strings are refused lazily) discovered at compute time
+    for func in ("sum", "nanmax", "count", "nanmean", "first"):
+        for pat in gen.sample([p for p in pats if all(x >= 0 for x in p)], 3 if ctx.quick else 10, rng):
+            for kind in ("datetime64[ns]", "datetime64[D]", "timedelta64[ns]"):
+                i += 1
+                p_ = np.array(pat)
+                lab = (np.datetime64("2001-01-01") + p_.astype("timedelta64[D]")).astype(kind) if kind.startswith("datetime") else (p_ * 3600).astype("timedelta64[s]").astype(kind)
+                v = np.array([[1.0, 3.0, 2.0, -1.0][rng.integers(4)] for _ in range(n)])
+                ch = [list(chunkings[int(rng.integers(len(chunkings)))])]
+                c = dict(array=enc(v), by=[enc(lab)], func=func, chunks=ch, by_chunks=[ch], method=[None, "map-reduce"][i % 2], reindex=[None, False][(i // 2) % 2])
+                cases.append(c)
+    # 2-D labels reduced over both axes, discovered at compute time (nested block lists in the combine step)
+    for func in ("sum", "nanmax", "count", "nanmean"):
+        for kind in ("int64", "float64", "datetime64[ns]", "timedelta64[ns]"):
+            for ch2 in ([[1, 1], [2, 1]], [[2], [1, 1, 1]], [[1, 1], [1, 1, 1]], [[2], [3]]):
+                i += 1
+                if ctx.quick and i % 2:
+                    continue
+                codes = np.array([[0, 1, 0], [2, 2, 1]]) if i % 3 else np.array([[1, 1, 0], [0, 2, 0]])
+                if kind == "int64":
+                    lab = codes * 10 + 5
+                elif kind == "float64":
+                    lab = (codes * 10 + 5).astype(float)
+                    lab[0, 1] = np.nan
+                elif kind.startswith("datetime"):
+                    lab = (np.datetime64("2001-01-01") + codes.astype("timedelta64[D]")).astype(kind)
+                else:
+                    lab = (codes * 3600).astype("timedelta64[s]").astype(kind)
+                v = np.array([[1.0, 3.0, 2.0], [-1.0, 0.5, 4.0]])
+                cases.append(dict(array=enc(v), by=[enc(lab)], func=func, chunks=ch2, by_chunks=[ch2], method=[None, "map-reduce"][i % 2]))
     for func in ("nancumsum", "ffill", "bfill"):
         for pat in gen.sample([p for p in pats if all(x >= 0 for x in p)], 6 if ctx.quick else 20, rng):
             for by_dask in (False, True):
